@@ -53,6 +53,8 @@ func repoPkg(path string) bool {
 	return path == luaPath || strings.HasPrefix(path, luaPath+"/")
 }
 
+var dumpFuncsMode bool
+
 func loadProg(dir, goos, goarch string) (*Prog, error) {
 	env := append(os.Environ(),
 		"GOFLAGS=-mod=mod", "GOPROXY=off", "GOSUMDB=off", "GOTOOLCHAIN=local", "GOWORK=off")
@@ -69,6 +71,50 @@ func loadProg(dir, goos, goarch string) (*Prog, error) {
 	pkgs, err := packages.Load(cfg, "./...")
 	if err != nil {
 		return nil, err
+	}
+	if dumpFuncsMode {
+		for _, l := range dumpFuncs(pkgs) {
+			fmt.Println(l)
+		}
+		os.Exit(0)
+	}
+	// helper normalisation (normalize.go): only when the tree declares functions the baseline does not know
+	typeErrs := func(ps []*packages.Package) int {
+		n := 0
+		packages.Visit(ps, nil, func(pk *packages.Package) {
+			if repoPkg(pk.PkgPath) {
+				n += len(pk.Errors)
+			}
+		})
+		return n
+	}
+	if typeErrs(pkgs) == 0 && os.Getenv("VERIF_NO_NORMALIZE") == "" {
+		if ov := normalizeHelpers(*cfg, pkgs); ov != nil {
+			try := func(o map[string][]byte) []*packages.Package {
+				c2 := *cfg
+				c2.Overlay = o
+				ps, err := packages.Load(&c2, "./...")
+				if err != nil || typeErrs(ps) > 0 {
+					return nil
+				}
+				return ps
+			}
+			var norm []*packages.Package
+			if ov2 := dropUnusedHelpers(*cfg, ov); ov2 != nil {
+				norm = try(ov2)
+			}
+			if norm == nil {
+				norm = try(ov)
+			}
+			if norm != nil {
+				pkgs = norm
+			} else {
+				normalizeLog = append(normalizeLog, "normalised program rejected (type errors); analysing the tree as it is")
+			}
+		}
+		for _, l := range normalizeLog {
+			fmt.Println("normalise: " + l)
+		}
 	}
 	p := &Prog{Dir: dir, Pkgs: map[string]*packages.Package{}, SPkgs: map[string]*ssa.Package{},
 		funcs: map[string]*ssa.Function{}, declOf: map[*ast.FuncLit]*ssa.Function{}, GOOS: goos, GOARCH: goarch}
